@@ -16,25 +16,27 @@ def unknown_item(draw, depth=0, maxdepth=6):
     name = draw(st.sampled_from(UNK))
     k = draw(st.integers(0, 11 if depth < maxdepth else 6))
     v = lambda: draw(st.sampled_from(VALS))
+    # a comment may stand between any two tokens of the item (mostly none)
+    c = lambda: draw(st.sampled_from([" "] * 12 + [" /* c */ ", " # c\n", " // c\n ", " /**/ ", " /* {\n} */ "]))
     if k == 0:
-        return "%s = %s" % (name, v())
+        return "%s%s=%s%s" % (name, c(), c(), v())
     if k == 1:
-        return "%s = {}" % name
+        return "%s%s=%s{%s}" % (name, c(), c(), c())
     if k == 2:
-        return "%s = {%s}" % (name, v())
+        return "%s%s=%s{%s%s%s}" % (name, c(), c(), c(), v(), c())
     if k == 3:
-        return "%s = {%s, %s,}" % (name, v(), v())
+        return "%s = {%s%s,%s%s,%s}" % (name, v(), c(), c(), v(), c())
     if k == 4:
-        return "%s += {%s}" % (name, v())
+        return "%s%s+=%s{%s}" % (name, c(), c(), v())
     if k == 5:
-        return "%s += %s" % (name, v())
+        return "%s%s+=%s%s" % (name, c(), c(), v())
     if k == 6:
         n = draw(st.integers(0, 3))
-        return "%s(%s)" % (name, ", ".join(v() for _ in range(n)))
+        return "%s%s(%s%s)" % (name, c(), c(), ", ".join(v() for _ in range(n)))
     title = draw(st.sampled_from(["", "", " t", " \"a title\"", " 'x'"]))
     n = draw(st.integers(0, 3))
     body = " ".join(draw(unknown_item(depth + 1, maxdepth)) for _ in range(n))
-    return "%s%s {%s%s%s}" % (name, title, draw(st.sampled_from(["", " ", "\n"])), body, draw(st.sampled_from(["", " ", "\n"])))
+    return "%s%s%s%s{%s%s%s}" % (name, c() if title else " ", title, c(), draw(st.sampled_from(["", " ", "\n"])), body, draw(st.sampled_from(["", " ", "\n"])))
 
 
 def what(u):
@@ -56,7 +58,8 @@ class C12:
     variants = ("asan",)
     rule = ("accepted texts T (random or hand-built schema, any flags + IGNORE_UNKNOWN) x every item boundary at every depth "
             "(begin and end of each section body included) x 3 unknown items from a recursive generator (assignment, list "
-            "forms, append, call with 0-3 args, plain/titled section with nested content to depth 6), plus directed nesting "
+            "forms, append, call with 0-3 args, plain/titled section with nested content to depth 6, comments between the "
+            "tokens of the item), plus directed nesting "
             "depths 10^k. Metamorphic oracle: with the flag same return code and tree as T and no diagnostic; without the "
             "flag (outside free-form sections) rejected with >= 1 diagnostic. Non-trivial = U contains a section or the "
             "insertion point is below top level; distinct = distinct (T, point, U)")
